@@ -219,6 +219,31 @@ RULES = [
 ]
 
 
+def _nests():
+    """every nesting of loop / if / routine definition / matrix block, three levels deep"""
+    parts = {
+        'loop': ('repeat 2 begin {} end', True),
+        'if': ('if {{1 > 0}} begin {} end', True),
+        'define': ('define fn{n} begin {} end', False),
+        'matrix': ('set "Candle" begin stage row 0 {} end', False),
+    }
+    out = []
+    import itertools
+    for combo in itertools.product(parts, repeat=3):
+        if combo.count('define') > 1:
+            continue        # nested definitions are rejected by rule
+        if any(combo[i] == 'matrix' and 'matrix' in combo[i + 1:] for i in range(3)):
+            continue        # nested matrix blocks are rejected by rule
+        text = 'hue 5'
+        for n, kind in enumerate(reversed(combo)):
+            text = parts[kind][0].format(text, n=n)
+        out.append(text)
+    return out
+
+
+NESTS = _nests()
+
+
 def main():
     chk = Check('C06', extra_modules=['Bardolph.Proofs.Closed', 'Bardolph.Proofs.ClosedGen', 'Bardolph.Proofs.ClosedSplit', 'Bardolph.Proofs.ClosedLoad'])
     chk.lean_phase(sections=set())
@@ -234,8 +259,15 @@ def main():
         if k < 5:
             inputs.append(('soup', token_soup(rng, internal)))
         elif k < 9:
-            prog, _pop = progs.generate(rng, size=rng.choice([2, 4, 8]), max_depth=3)
+            deep = rng.random() < 0.5
+            prog, _pop = progs.generate(rng, size=rng.choice([2, 4, 8]), max_depth=4 if deep else 3,
+                                        features={'nested_define': deep})
             text = progs.render(prog)
+            if k == 8:
+                # valid scripts, deeply nested (definitions inside if/repeat bodies, matrix blocks
+                # inside routines inside loops …): must be accepted and executable
+                inputs.append(('valid', text))
+                continue
             for _ in range(rng.choice([1, 1, 2, 3])):
                 text = mutate(rng, text)
             inputs.append(('mutant', text))
@@ -243,6 +275,8 @@ def main():
             inputs.append(('noise', noise(rng)))
     for name, text in RULES:
         inputs.append(('rule:' + name, text))
+    for text in NESTS:
+        inputs.append(('valid', text))
     stats['rules'] = len(RULES)
     for stream, text in inputs:
         stats['inputs'] += 1
@@ -268,6 +302,10 @@ def main():
         if stream.startswith('rule:') and outcome != 'reject':
             chk.violation('documented-rule-not-enforced:' + stream[5:],
                           'text breaking the rule "{}" is accepted'.format(stream[5:]), {'text': text})
+            continue
+        if stream == 'valid' and outcome == 'reject':
+            chk.violation('valid-script-rejected', 'a well-formed script is rejected: ' + detail.strip()[:100],
+                          {'text': text})
             continue
         if outcome == 'reject':
             if job.program is not None:
